@@ -857,7 +857,7 @@ class TemplateModel(object):
         # Order the channels by decreasing amplitude.
         order = np.argsort(amplitude[channel_ids])[::-1]
         channel_ids = channel_ids[order]
-        amplitude = amplitude[order]
+        amplitude = amplitude[channel_ids]
         assert best_channel in channel_ids
         assert amplitude.shape == (len(channel_ids),)
         return channel_ids, amplitude, best_channel
@@ -886,6 +886,8 @@ class TemplateModel(object):
             template, amplitude_threshold=amplitude_threshold)
         channel_ids = channel_ids if channel_ids is not None else channel_ids_
         template = template[:, channel_ids]
+        # The amplitudes refer to the returned channels, in the same order as the columns.
+        amplitude = template.max(axis=0) - template.min(axis=0)
         assert template.ndim == 2
         assert template.shape[1] == channel_ids.shape[0]
         return Bunch(
@@ -928,7 +930,7 @@ class TemplateModel(object):
         channels_reordered = np.argsort(amplitude)[::-1]
         out = Bunch(
             template=template[..., channels_reordered],
-            amplitude=amplitude,
+            amplitude=amplitude[channels_reordered],
             best_channel=best_channel,
             channel_ids=channel_ids[channels_reordered],
         )
